@@ -41,8 +41,8 @@ using Resource = ExclusiveMonotonicBufferResource;
 
 const char* RULE =
     "decoded op sequence over <=3 ExclusiveMonotonicBufferResource slots, 2 recording page allocators, 2 recording upstreams; "
-    "non-trivial = a content that rolled a page array over (>15 pages), or took the extra-page placement, or owned an oversize "
-    "block, was released/destroyed; or a move transferred a non-empty content";
+    "non-trivial = a content that rolled a page array over (>15 pages, incl. the extra-page placement at a roll-over) or owned an "
+    "oversize block was released/destroyed; or a move transferred a non-empty content";
 
 struct Case;
 Case* g = nullptr;  // the running case (callbacks from babylon need it); reset at the end of every case
@@ -387,7 +387,10 @@ void begin_op(Slot& s) {
 void end_op(Slot& s) {
   Content& c = g->contents[s.content];
   if (g->pages_this_op == 2) {
-    c.extra_page = true;
+    if (c.pages_ever > 2) {
+      c.extra_page = true;  // at a roll-over, not just the very first page of a small-page resource
+      vfz::label("page_array_in_extra_page_at_rollover");
+    }
     vfz::label("page_array_in_extra_page");
   } else if (g->pages_this_op > 2) {
     failc("one operation obtained %zu pages", g->pages_this_op);
@@ -556,7 +559,7 @@ void run(const uint8_t* data, size_t size) {
       unsigned form = d.below(8);
       unsigned tk = form == 3 ? d.below(6) : 0;
       unsigned rep = 1;
-      if (op >= 28) rep = 1 + d.below(24);  // bursts roll the page array over
+      if (op >= 22) rep = 1 + d.below(40);  // bursts roll the page array over
       size_t align = (size_t)1 << d.below(max_shift + 1);
       for (unsigned r = 0; r < rep; r++) {
         begin_op(s);
